@@ -136,13 +136,48 @@ def ppoly_inside_flag(p, poly):
     return _inside_simple(_lin(p, -h / _dot(n, n), n), poly, n)
 
 
-def _near(x, y, scale=1.0):
-    return abs(float(x) - float(y)) <= RTOL * (scale + abs(float(y)))
+EPS = 2.0 ** -52
 
 
-def _on_segment(cp, a, b, scale):
+def _all_points(case):
+    pts = []
+    for key in ("p", "a", "b"):
+        if key in case:
+            pts.append(case[key])
+    for key in ("set", "pts", "poly", "segs"):
+        for item in case.get(key, []):
+            if item and isinstance(item[0], (list, tuple)):
+                pts.extend(item)
+            else:
+                pts.append(item)
+    return pts
+
+
+def _tol_abs(case):
+    """absolute tolerance for lengths / coordinates of this case: 1e-9 of the SEPARATION
+    scale L (extent of the configuration) plus 64 ulps of the coordinate magnitude M (the
+    shifted inputs themselves are only representable to ulp(M))"""
+    pts = _all_points(case)
+    nd = len(pts[0])
+    M = max(abs(x) for p in pts for x in p)
+    L = max(max(p[i] for p in pts) - min(p[i] for p in pts) for i in range(nd))
+    if L == 0:
+        L = M if M else 1.0
+    return RTOL * L + 64 * EPS * M
+
+
+def _dist_ok(d, ex_sq, tol):
+    """returned length d against the exact squared length"""
+    return abs(d - math.sqrt(float(ex_sq))) <= tol
+
+
+def _pt_ok(got, exact, tol):
+    return all(abs(float(x) - float(y)) <= tol for x, y in zip(got, exact))
+
+
+def _on_segment(cp, a, b, tol):
     d2, _ = ps_exact(cp, a, b)
-    return float(d2) <= (1e-8 * scale) ** 2
+    return math.sqrt(float(d2)) <= 4 * tol
 
 
 def _pad(p):
@@ -176,19 +211,21 @@ class C30(Prop):
         "Point-segment: the result is the global minimum over the segment, attained at the "
         "returned closest point, which lies on the segment (every point, every segment of positive "
         "length). Segment-segment (all branches of the vectorised Sunday/Eberly case analysis, the "
-        "three SMALL_TOLERANCE masks included): for any positive tolerance the parameters lie in "
+        "three relative tolerance masks included): the parameters lie in "
         "[0,1], the closest points lie on the respective segments and realise the returned "
-        "distance; OFF the tolerance band (explicit guard off_band: discriminant 0 or >= SMALL, "
-        "final numerators 0 or >= SMALL) the returned distance is the global minimum over "
+        "distance; OFF the tolerance band (explicit guard off_band: discriminant 0 or >= "
+        "1e-8|d1|^2|d2|^2, final numerators 0 or >= 1e-8 * denominator) the returned distance "
+        "is the global minimum over "
         "[0,1]^2 (convexity + KKT per stage). segment_set: entries (i,j),(j,i) carry the same "
-        "distance, closest points on segment i resp. j, minimal off the band of the row's call. "
+        "distance, closest points on segment i resp. j, minimal off the band. "
         "points_polygon for planar polygons: outside branch -- the closest point lies in the "
         "plane, on an edge, at the returned distance, which is the minimum over the whole "
         "boundary; inside branch (normal outside numpy's allclose band around +-e_z, or exactly "
         "+-e_z) -- the closest point is the orthogonal projection, in the plane, at the returned "
         "distance, the minimum over the whole plane. The model is tied to the code on every run "
-        "(Coq recomputes distances and closest points in exact rationals on integer 2-d/3-d "
-        "configurations: parallel, collinear, crossing, touching, zero-length segments; all "
+        "(Coq recomputes distances and closest points in exact rationals on 2-d/3-d integer "
+        "configurations and their exact images under translations by up to 2^23 and scalings "
+        "2^-20..2^20: parallel, collinear, crossing, touching, zero-length segments; all "
         "entries of segment_set; points against convex, very uneven and non-convex polygons in "
         "planes with rational rotation matrices) and Coq confirms that every segment-segment "
         "configuration of the run is off the band. segments_polygon and polygons in general "
@@ -199,12 +236,11 @@ class C30(Prop):
         "'cp is inside the polygon' in the inside branch and 'no interior point is closer' in the "
         "outside branch of points_polygon rest on it; transcribed, tied and covered by the exact "
         "oracle incl. non-convex polygons); (2) segments_polygon (oracle only); (3) optimality of "
-        "segment-segment INSIDE the SMALL_TOLERANCE band: there the code is not exact by design "
+        "segment-segment INSIDE the tolerance band: there the code is not exact by design "
         "(two unit segments crossing under an angle of 1e-5 get distance 1e-5 instead of 0, see "
-        "Example C30_segseg_band_example); SMALL_TOLERANCE = 1e-8*min squared length is compared "
-        "with numerators that scale with the fourth power of the lengths, so for geometry scaled "
-        "below ~1e-3 the band is wide (everything counts as parallel below ~1e-4). The generator "
-        "uses integer coordinates (never in the band) -- this is a documented tolerance of the "
+        "Example C30_segseg_band_example; after the repair the band is relative: angle below "
+        "1e-4, parameters below 1e-8). The generator uses (images of) integer configurations, "
+        "never in the band -- a documented tolerance of the "
         "code, not reported as a violation. Zero-length segments make the code return NaN (0/0): "
         "modelled as an error value, excluded by the guard of positive length, not treated as a "
         "violation. Inside numpy's allclose band around +-e_z (polygon tilted by < 1e-8 but not "
@@ -213,7 +249,12 @@ class C30(Prop):
     technique = ("Coq proof over R (convexity/KKT of the quadratic, nra/field on the transcribed case "
                  "analysis) + vm_compute execution correspondence in exact rationals + exact "
                  "rational oracle")
-    rule = ("integer coordinates, 2-d and 3-d: point-point, point sets x segment sets (both loop "
+    rule = ("base configurations with small integer coordinates, then (75%) an exact similarity: "
+            "all inputs shifted by one integer vector (entries up to 2^23, also at +-2^23) and/or "
+            "scaled by 2^k, k in [-20,20] (polygon kernels: no up-scaling together with a shift, "
+            "because project_plane_matrix checks planarity with a fixed absolute 1e-5); tolerances "
+            "are 1e-9 of the extent of the configuration + 64 ulps of the coordinate magnitude, "
+            "geometric tolerance arguments are scaled with the geometry. Base, 2-d and 3-d: point-point, point sets x segment sets (both loop "
             "variants), one segment against a segment set (parallel, collinear overlapping/"
             "disjoint, crossing, touching, skew, zero-length), all-pairs segment_set, points and "
             "segments against simple planar polygons (convex; very uneven edge lengths; "
@@ -344,6 +385,47 @@ class C30(Prop):
         return pts
 
     def generate(self, rng, n, tier):
+        """base (small integer) configurations, then an exact similarity: all inputs of the
+        case shifted by one integer vector (entries up to 2^23) and/or scaled by 2^k,
+        k in [-20, 20]; all transformed coordinates are exactly representable"""
+        for case in self._generate_base(rng, n, tier):
+            yield self._transform(rng, case)
+
+    @staticmethod
+    def _transform(rng, case):
+        r = rng.random()
+        big = r < 0.35
+        k = 0 if 0.25 <= r < 0.6 else rng.randint(-20, 20)
+        if "scale" in case or (not big and k == 0):
+            return case
+        if big and k > 0 and case["kind"] in ("ppoly", "spoly"):
+            # project_plane_matrix checks planarity with a fixed ABSOLUTE tolerance 1e-5
+            # (not forwarded by the polygon kernels): large geometry far from the origin
+            # trips it by round-off of the centring alone
+            k = 0
+        nd = len(_all_points(case)[0])
+        B = 2 ** 23
+        sh = [rng.choice([rng.randint(-B, B), B - rng.randint(0, 9), -B + rng.randint(0, 9)])
+              if big else 0 for _ in range(nd)]
+        sc = 2.0 ** k
+
+        def f(p):
+            return [(x + d) * sc for x, d in zip(p, sh)]
+
+        def mp(obj):
+            if obj and isinstance(obj[0], (list, tuple)):
+                return [mp(o) for o in obj]
+            return f(obj)
+
+        out = dict(case)
+        for key in ("p", "a", "b", "set", "pts", "poly", "segs"):
+            if key in out:
+                out[key] = mp(out[key])
+        out["scale"] = sc
+        out["shift"] = sh
+        return out
+
+    def _generate_base(self, rng, n, tier):
         yield from self._corners()
         for _ in range(n):
             r = rng.random()
@@ -477,13 +559,14 @@ class C30(Prop):
                     "cp": [[[float(x) for x in cp[i, j]] for j in range(cp.shape[1])]
                            for i in range(cp.shape[0])]}
         if k == "ppoly":
-            d, cp, inp = D.points_polygon(A(case["pts"]), A(case["poly"]))
+            d, cp, inp = D.points_polygon(A(case["pts"]), A(case["poly"]),
+                                          tol=1e-5 * case.get("scale", 1))
             return {"d": [float(x) for x in d], "cp": [[float(x) for x in cp[:, i]]
                                                         for i in range(cp.shape[1])]}
         if k == "spoly":
             S = A([s[0] for s in case["segs"]])
             E = A([s[1] for s in case["segs"]])
-            d, cp = D.segments_polygon(S, E, A(case["poly"]))
+            d, cp = D.segments_polygon(S, E, A(case["poly"]), tol=1e-5 * case.get("scale", 1))
             return {"d": [float(x) for x in d], "cp": [[float(x) for x in cp[:, i]]
                                                         for i in range(cp.shape[1])]}
         raise ValueError(k)
@@ -491,10 +574,11 @@ class C30(Prop):
     # ---------------------------------------------------------------------- oracle
     def oracle(self, case, res):
         k = case["kind"]
+        tol = _tol_abs(case)
         if k == "pp":
             for q, d in zip(case["set"], res):
                 ex = _dot(_sub(_fr(case["p"]), _fr(q)), _sub(_fr(case["p"]), _fr(q)))
-                if not _near(d * d, ex):
+                if not _dist_ok(d, ex, tol):
                     return f"point-point distance {d!r}, exact squared {ex}"
             return None
         if k == "ps":
@@ -506,30 +590,31 @@ class C30(Prop):
                     if r[0] != "ok":
                         return f"point-segment returned {r[1]} for a proper segment"
                     ex, cp = ps_exact(p, a, b)
-                    if not _near(r[1][0] ** 2, ex):
+                    if not _dist_ok(r[1][0], ex, tol):
                         return f"point-segment distance {r[1][0]!r}, exact squared {ex}"
-                    if not all(_near(x, y) for x, y in zip(r[1][1:], cp)):
+                    if not _pt_ok(r[1][1:], cp, tol):
                         return f"point-segment closest point {r[1][1:]}, exact {[str(x) for x in cp]}"
+                    if abs(math.dist(p, r[1][1:]) - r[1][0]) > 4 * tol:
+                        return "point-segment distance disagrees with the returned closest point"
             return None
         if k == "ss":
             a, b = case["a"], case["b"]
             if a == b or any(c == d for c, d in case["set"]):
-                return None                 # zero-length segment in play (changes SMALL_TOLERANCE)
+                return None                 # zero-length segment in play
             nd = len(a)
             for (c, d), r in zip(case["set"], res):
                 if r[0] != "ok":
                     return f"segment-segment returned {r[1]} for proper segments"
                 dist, c1, c2 = r[1][0], r[1][1:1 + nd], r[1][1 + nd:]
                 ex = ss_exact(a, b, c, d)
-                if not _near(dist * dist, ex):
+                if not _dist_ok(dist, ex, tol):
                     return (f"segment-segment distance {dist!r} (squared {dist * dist!r}), "
                             f"exact squared minimum {ex}")
-                scale = 1 + max(abs(x) for x in a + b + c + d)
-                if not _on_segment(c1, a, b, scale):
+                if not _on_segment(c1, a, b, tol):
                     return f"closest point {c1} is not on the main segment"
-                if not _on_segment(c2, c, d, scale):
+                if not _on_segment(c2, c, d, tol):
                     return f"closest point {c2} is not on the second segment"
-                if not _near(math.dist(c1, c2), dist, scale):
+                if abs(math.dist(c1, c2) - dist) > 4 * tol:
                     return "returned closest points do not realise the returned distance"
             return None
         if k == "sset":
@@ -544,41 +629,37 @@ class C30(Prop):
                             return "segment_set: nonzero diagonal"
                         continue
                     ex = ss_exact(*segs[i], *segs[j])
-                    if not _near(res["d"][i][j] ** 2, ex):
+                    if not _dist_ok(res["d"][i][j], ex, tol):
                         return (f"segment_set: distance[{i}][{j}] = {res['d'][i][j]!r}, exact "
                                 f"squared {ex}")
-                    scale = 1 + max(abs(x) for s in segs for p in s for x in p)
-                    if not _on_segment(res["cp"][i][j], segs[i][0], segs[i][1], scale):
+                    if not _on_segment(res["cp"][i][j], segs[i][0], segs[i][1], tol):
                         return f"segment_set: cp[{i}][{j}] is not on segment {i}"
-                    if not _near(math.dist(res["cp"][i][j], res["cp"][j][i]), res["d"][i][j], scale):
+                    if abs(math.dist(res["cp"][i][j], res["cp"][j][i]) - res["d"][i][j]) > 4 * tol:
                         return f"segment_set: cp[{i}][{j}], cp[{j}][{i}] do not realise the distance"
             return None
         if k == "ppoly":
             poly = case["poly"]
             for p, d, cp in zip(case["pts"], res["d"], res["cp"]):
                 ex = ppoly_exact(p, poly)
-                if not _near(d * d, ex):
+                if not _dist_ok(d, ex, tol):
                     return f"point-polygon distance {d!r}, exact squared {ex}"
-                scale = 1 + max(abs(x) for v in poly for x in v)
-                if float(ppoly_exact(cp, poly)) > (1e-7 * scale) ** 2:
+                if math.sqrt(float(ppoly_exact(cp, poly))) > 4 * tol:
                     return f"point-polygon closest point {cp} is not on the polygon"
-                if not _near(math.dist(p, cp), d, scale):
+                if abs(math.dist(p, cp) - d) > 4 * tol:
                     return "point-polygon closest point is not at the returned distance"
             return None
         if k == "spoly":
             poly = case["poly"]
             for (a, b), d, cp in zip(case["segs"], res["d"], res["cp"]):
                 ex = spoly_exact(a, b, poly)
-                if not _near(d * d, ex):
+                if not _dist_ok(d, ex, tol):
                     return f"segment-polygon distance {d!r}, exact squared {ex}"
                 # the returned point lies on one of the two objects, at the returned
                 # distance from the other
-                scale = 1 + max(abs(x) for v in poly + [a, b] for x in v)
-                eps2 = (1e-7 * scale) ** 2
-                dseg = float(ps_exact(cp, a, b)[0])
-                dpol = float(ppoly_exact(cp, poly))
-                on_seg = dseg <= eps2 and abs(math.sqrt(dpol) - d) <= 1e-7 * scale
-                on_pol = dpol <= eps2 and abs(math.sqrt(dseg) - d) <= 1e-7 * scale
+                dseg = math.sqrt(float(ps_exact(cp, a, b)[0]))
+                dpol = math.sqrt(float(ppoly_exact(cp, poly)))
+                on_seg = dseg <= 4 * tol and abs(dpol - d) <= 8 * tol
+                on_pol = dpol <= 4 * tol and abs(dseg - d) <= 8 * tol
                 if not (on_seg or on_pol):
                     return (f"segment-polygon closest point {cp} is not on the segment/polygon "
                             "at the returned distance from the other")
@@ -588,18 +669,18 @@ class C30(Prop):
     # ------------------------------------------------------------------------- tie
     def coq_case(self, case, res):
         k = case["kind"]
+        tol = cq(F(_tol_abs(case)))
         if k == "pp":
-            return " && ".join(f"agree_pp {_v(case['p'])} {_v(q)} {cq(d)}"
+            return " && ".join(f"agree_pp {tol} {_v(case['p'])} {_v(q)} {cq(d)}"
                                for q, d in zip(case["set"], res))
         if k == "ps":
-            nd = len(case["pts"][0])
             terms = []
             for i, p in enumerate(case["pts"]):
                 for j, (a, b) in enumerate(case["segs"]):
                     r = res[i][j]
                     if r[0] == "ok":
                         r = ["ok", [r[1][0]] + _pad(r[1][1:])]
-                    terms.append(f"agree_ps {_v(p)} {_v(a)} {_v(b)} {_res(r)}")
+                    terms.append(f"agree_ps {tol} {_v(p)} {_v(a)} {_v(b)} {_res(r)}")
             return " && ".join(terms)
         if k == "ss":
             nd = len(case["a"])
@@ -609,9 +690,9 @@ class C30(Prop):
                     r = ["ok", [r[1][0]] + _pad(r[1][1:1 + nd]) + _pad(r[1][1 + nd:])]
                 outs.append(r)
             st = clist(case["set"], lambda s: f"({_v(s[0])}, {_v(s[1])})")
-            t = f"agree_ss {_v(case['a'])} {_v(case['b'])} {st} {clist(outs, _res)}"
+            t = f"agree_ss {tol} {_v(case['a'])} {_v(case['b'])} {st} {clist(outs, _res)}"
             if case["a"] != case["b"] and all(c != d for c, d in case["set"]):
-                # the configuration is off the SMALL_TOLERANCE band: the optimality theorem
+                # the configuration is off the tolerance band: the optimality theorem
                 # applies to it
                 t += f" && off_band_set Q QO {_v(case['a'])} {_v(case['b'])} {st}"
             return t
@@ -625,13 +706,15 @@ class C30(Prop):
                 for j in range(n):
                     vals = [res["d"][i][j]] + _pad(res["cp"][i][j])
                     r = ["ok", vals] if _fin(*vals) else ["err", "NanErr"]
-                    terms.append(f"agree_sset_entry {segs} {i}%nat {j}%nat {_res(r)}")
+                    terms.append(f"agree_sset_entry {tol} {segs} {i}%nat {j}%nat {_res(r)}")
             return " && ".join(terms)
         if k == "ppoly" and case.get("tie"):
             poly = clist(case["poly"], _v)
+            gtol = cq(F(1, 100000) * F(case.get("scale", 1)))
             terms = []
             for pt, d, cp in zip(case["pts"], res["d"], res["cp"]):
-                terms.append(f"agree_ppoly {_v(pt)} {poly} {_res(['ok', [d] + list(cp)])}")
+                terms.append(f"agree_ppoly {tol} {gtol} {_v(pt)} {poly} "
+                             f"{_res(['ok', [d] + list(cp)])}")
             return " && ".join(terms)
         return None
 
@@ -645,7 +728,8 @@ class C30(Prop):
             return f"point_segment Q QO {_v(case['pts'][0])} {_v(a)} {_v(b)}"
         if k == "ppoly":
             poly = clist(case["poly"], _v)
-            return (f"map (fun p => points_polygon Q QO (1 # 100000) (1 # 100000) p {poly}) "
+            gtol = cq(F(1, 100000) * F(case.get("scale", 1)))
+            return (f"map (fun p => points_polygon Q QO (1 # 100000) {gtol} p {poly}) "
                     f"{clist(case['pts'], _v)}")
         if k == "sset":
             segs = clist(case["segs"], lambda s: f"({_v(s[0])}, {_v(s[1])})")
